@@ -28,15 +28,21 @@ def judge_pass(rows):
     rc, out = V.sh([V.ZYDRV], stdin="\n".join(lines) + "\n")
     if rc != 0:
         raise RuntimeError("zydrv (judge pass) failed: %s" % out[-2000:])
-    verdicts = [l.partition("\t")[0] for l in out.split("\n")[:len(rows)]]
-    if len(verdicts) != len(rows):
-        raise RuntimeError("judge pass answered %d lines for %d traces" % (len(verdicts), len(rows)))
+    outl = out.split("\n")[:len(rows)]
+    if len(outl) != len(rows):
+        raise RuntimeError("judge pass answered %d lines for %d traces" % (len(outl), len(rows)))
     res, bad = [], 0
-    for (op, impl, model, spec), v, jl in zip(rows, verdicts, lines):
+    for (op, impl, model, spec), ans, jl in zip(rows, outl, lines):
+        v, _, second = ans.partition("\t")
         if op.split(" ")[1] == "base":
-            model = impl        # the model does not predict builtin names; base lines are judged only
+            # the model does not predict builtin names; it only assumes that a fresh interpreter
+            # uses the numbers 1..n (second column) — an assumption of the model, not the property
+            model = impl if second == "ok" else "model-assumes: " + second
         if v == "ok":
             res.append((op, impl, model, impl))
+        elif v.startswith("bad:statement-failed-or-unreadable") or v.startswith("bad:unreadable") or v == "bad-op":
+            # no trace to judge (stale base, host panic, failed statement): left to impl-vs-model
+            res.append((op, impl, model, "-"))
         else:
             bad += 1
             res.append((op, impl, model, "spec-violated " + v + " [judge line: " + jl[:400] + "]"))
